@@ -296,6 +296,8 @@ pub const RULE_NAMES: &[&str] = &[
     "Omi", "Pi", "Rho", "Sigma", "Tau", "Upsilon", "Phi", "Chi", "Psi", "Omega", "A1", "B2", "X", "Yy", "ZZ", "Q9x",
     // families of names that are prefixes of each other
     "Xis", "Et", "Etas", "Nu1", "Pip", "Ta", "A1b", "Ps", "Ch", "Om", "Rh", "Rhos", "Mux", "Be", "Al", "Alp",
+    // names that differ only in case from others, snake case, leading underscore
+    "xi", "XI", "alpha", "ETA", "mu", "x", "_Gam", "beta_1",
 ];
 /// keywords that can be raw identifiers; usable as rule and field names
 pub const KEYWORD_NAMES: &[&str] = &[
@@ -304,7 +306,7 @@ pub const KEYWORD_NAMES: &[&str] = &[
     "unsafe", "use", "where", "while", "async", "await", "dyn", "abstract", "become", "box", "do", "final", "macro",
     "override", "priv", "typeof", "unsized", "virtual", "yield", "try", "gen", "union", "auto", "default",
 ];
-pub const FIELD_NAMES: &[&str] = &["a", "b", "c", "x", "y", "val", "item", "lhs", "rhs", "f1", "op", "tail_", "k9", "_u", "Up"];
+pub const FIELD_NAMES: &[&str] = &["a", "b", "c", "x", "y", "val", "item", "lhs", "rhs", "f1", "op", "tail_", "k9", "_u", "Up", "Val", "ITEM", "A"];
 
 const ASCII_ALPHA: &[char] = &['a', 'b', 'c', 'x', 'y', 'z', '0', '1', 'A', 'B', 'Z'];
 const ASCII_PUNCT: &[char] = &['+', '-', '*', '/', '(', ')', ',', ';', '=', '<', '#', '_', '.', ':', '!', '&', '@'];
